@@ -292,7 +292,7 @@ func replayLayout(r *Run, l *layout, confined bool) string {
 	if ok != l.OK {
 		return fmt.Sprintf("specification ok=%v (%s), bkl exit=%d: %.200s", l.OK, l.Err, res.Exit, res.Stderr)
 	}
-	if ok && !docsEqual(outs, l.Outs) {
+	if ok && !docsEqual(outs, jsonOuts(l.Outs)) {
 		return fmt.Sprintf("outputs differ: bkl printed %.300s", res.Stdout)
 	}
 	// the step log of the real program against the small-step resolver
@@ -638,3 +638,45 @@ func C03(r *Run) {
 		[]string{"BaseFirst", "ParentEqFilename", "MissingIsError", "SkipParents", "Diamond", "SymlinkInheritsFromTarget", "DirectiveBeatsSymlink"},
 		"model: filename chains of depth 1-4 under every rotation of 5 extensions, virtual input extensions, every missing layer, the same chains written with $parent, 15 $parent forms, $parent in the second document, symlinks, several inputs with and without -P, diamonds, bad inputs - each materialised and run through the real bkl binary; driver: random layouts of 1-8 layer files (two chains, depth <= 4, mixed extensions, $parent string/list/wildcard/false/null/missing, two-document files, symlinked and virtual inputs, -P) run through the real binary and validated against RunLayers")
 }
+
+// jsonOuts is what a JSON reader sees of documents bkl printed as JSON: Go prints
+// the double 3.0 as 3, so a whole-valued double arrives as an integer.
+func jsonOuts(docs []any) []any {
+	var norm func(t any) any
+	norm = func(t any) any {
+		tt, ok := t.([]any)
+		if !ok || len(tt) != 2 {
+			return t
+		}
+		switch tt[0] {
+		case "f":
+			if p, ok := tt[1].(string); ok && wholeDigits.MatchString(p) {
+				return []any{"i", p}
+			}
+		case "m":
+			if m, ok := tt[1].(map[string]any); ok {
+				out := map[string]any{}
+				for k, v := range m {
+					out[k] = norm(v)
+				}
+				return []any{"m", out}
+			}
+		case "l":
+			if l, ok := tt[1].([]any); ok {
+				out := make([]any, len(l))
+				for i, v := range l {
+					out[i] = norm(v)
+				}
+				return []any{"l", out}
+			}
+		}
+		return t
+	}
+	out := make([]any, len(docs))
+	for i, d := range docs {
+		out[i] = norm(d)
+	}
+	return out
+}
+
+var wholeDigits = regexp.MustCompile(`^-?[0-9]+$`)
